@@ -2,7 +2,10 @@ SPECIFICATION Spec
 CONSTANTS
   ROPool = TRUE
   ClassifyWholeText = FALSE
+  GuardEveryROStmt = TRUE
   LocalReadsOnROPool = TRUE
   StrongQueryOnROPool = TRUE
   Nodes = {n1, n2, n3}
+  SeqClasses = {"select", "write", "ro-head-rw-tail", "explain-write", "explain-ro-head-rw-tail", "pragma-optimize", "insert-returning"}
+  MaxLen = 3
 INVARIANT NoChangeByRead
